@@ -22,6 +22,12 @@ THEOREMS = [
 
 def run(ctx):
     ctx.prove("MpcVerif.Props.C16", THEOREMS)
+    # symbolic (free-hash, Dolev-Yao) authenticity: closes the reduction of Props/C16.lean inside the model of C04
+    ctx.prove("MpcVerif.Props.C16Sym", ["Mpc.Sym.derivable_phi", "Mpc.Sym.C16_symbolic_authenticity",
+                                        "Mpc.Sym.C16_symbolic_offset_not_derivable", "Mpc.Sym.C16_symbolic_no_wrong_result",
+                                        "Mpc.Sym.C16_symbolic_honest_run", "Mpc.Sym.C16_symbolic_perturbed_is_error",
+                                        "Mpc.Sym.C16_symbolic_corrupted_row_is_error", "Mpc.Sym.model1",
+                                        "Mpc.Sym.no_total_faithful_code"])
     run_t1(ctx, ["C16"])          # circuit.BitFromLabel = WireL.bitFrom
     if ctx.tier == "thorough":
         ctx.leanchecker("MpcVerif.Props.C16")
@@ -79,14 +85,17 @@ def run(ctx):
                             "distinct = distinct op lines")
     ctx.assumptions += [
         "authenticity of the garbling scheme under corruption (no transit corruption makes the evaluator produce label xor r) "
-        "is cryptographic and not a Lean theorem; it is covered by fault enumeration on the real code",
+        "is proved SYMBOLICALLY (free hash, Dolev-Yao adversary limited to xor / hashing under any tweak / select bits / fresh labels: "
+        "Props/C16Sym.lean, C16_symbolic_authenticity, C16_symbolic_no_wrong_result); the COMPUTATIONAL statement for the AES-based hash is "
+        "cryptographic, outside Lean, and covered by fault enumeration on the real code",
         "streaming sessions take part in the fault enumeration (2-3 small programs, CO on the wire); their session key comes "
         "from crypto/rand, so positions are reproducible but not the bytes",
     ]
     return ctx.finish(
         "Theorems: if the garbler's result loop succeeds on ARBITRARY received labels, each is one of the wire's two labels and "
         "a wrong value implies some label = honest label xor r (C16_wrong_imp_offset); unknown labels and wrong gate counts "
-        "take error branches. Tie: real circuit.Garbler against a scripted evaluator returning chosen labels vs the Lean "
+        "take error branches; in the symbolic free-hash model the other label of a wire is not derivable from the evaluator's view, so "
+        "adversary-derivable output labels give an error or exactly the plain evaluation (C16_symbolic_no_wrong_result). Tie: real circuit.Garbler against a scripted evaluator returning chosen labels vs the Lean "
         "decision logic; structural facts (single BitFromLabel path, row-length checks). Oracle: fault enumeration at byte "
         "positions of both directions of complete sessions, one child process per case; outcome must be "
         "error|stalled|crash|ok(correct).")
